@@ -8,6 +8,7 @@ import (
 	"fmt"
 	"strings"
 
+	"github.com/gogo/protobuf/jsonpb"
 	tmbytes "github.com/tendermint/tendermint/libs/bytes"
 
 	sdk "github.com/cosmos/cosmos-sdk/types"
@@ -243,6 +244,11 @@ func (state *RequestContextState) UnmarshalJSON(data []byte) error {
 	return nil
 }
 
+// UnmarshalJSONPB lets the proto JSON codec read back the names written by MarshalJSON
+func (state *RequestContextState) UnmarshalJSONPB(_ *jsonpb.Unmarshaler, data []byte) error {
+	return state.UnmarshalJSON(data)
+}
+
 // MarshalYAML returns the YAML representation
 func (state RequestContextState) MarshalYAML() (interface{}, error) {
 	return state.String(), nil
@@ -309,6 +315,11 @@ func (state *RequestContextBatchState) UnmarshalJSON(data []byte) error {
 
 	*state = bz
 	return nil
+}
+
+// UnmarshalJSONPB lets the proto JSON codec read back the names written by MarshalJSON
+func (state *RequestContextBatchState) UnmarshalJSONPB(_ *jsonpb.Unmarshaler, data []byte) error {
+	return state.UnmarshalJSON(data)
 }
 
 // MarshalYAML returns the YAML representation
